@@ -1,5 +1,14 @@
 """Symbolic value classes used by the executor (see DESIGN.md 2.2)."""
-import z3
+try:
+    import z3
+except Exception:  # native side (/venv) has no z3; only the class definitions are needed there
+    class _NoZ3:
+        class ExprRef:  # noqa
+            pass
+
+        ArithRef = BoolRef = ExprRef
+
+    z3 = _NoZ3()
 
 
 class Unsupported(Exception):
